@@ -49,6 +49,9 @@ def dtapeF : FFields → Nat → List Tok
       .unquoted ⟨0, k.bytes⟩] ++ o.toks ++ dtapeV v (base + 3 + o.toks.length) ++
       dtapeF inner (base + 2 + (1 + o.toks.length + fcntV v)) ++ [.endTok (base + 1)] ++
       dtapeF rest (base + ((3 + (1 + o.toks.length + fcntV v) + fcntF inner)))
+  | .paramHdr _ isU name _ val _ body rest, base =>
+    [paramTok isU ⟨0, name⟩, .header ⟨0, val.bytes⟩] ++ dtapeV body (base + 2) ++
+      dtapeF rest (base + (2 + fcntV body))
 def dtapeVs : FVals → Nat → List Tok
   | .nil, _ => []
   | .cons v rest, base => dtapeV v base ++ dtapeVs rest (base + fcntV v)
@@ -103,6 +106,9 @@ theorem ftapeF_erase : ∀ (fs : FFields) (b : Nat) (a : Bytes), (ftapeF fs b a)
   | .paramObj _ isU name g1 k g2 o v inner gc rest, b, a => by
     simp only [ftapeF, dtapeF, List.map_append, List.map_cons, List.map_nil, paramTok_erase, erase_unquoted,
       Op.toks_erase, ftapeV_erase v, ftapeF_erase inner, ftapeF_erase rest, erase_object, erase_endTok]
+  | .paramHdr _ isU name g1 val g2 body rest, b, a => by
+    simp only [ftapeF, dtapeF, List.map_append, List.map_cons, List.map_nil, paramTok_erase, erase_header,
+      ftapeV_erase body, ftapeF_erase rest]
 theorem ftapeVs_erase : ∀ (vs : FVals) (b : Nat) (a : Bytes), (ftapeVs vs b a).map Tok.erase = dtapeVs vs b
   | .nil, _, _ => rfl
   | .cons v rest, b, a => by
@@ -146,6 +152,7 @@ def stripF : FFields → FFields
   | .paramVal _ isU name _ val _ rest => .paramVal [] isU name [] val [] (stripF rest)
   | .paramObj _ isU name _ k _ o v inner _ rest =>
     .paramObj [] isU name [] k [] o (stripV v) (stripF inner) [] (stripF rest)
+  | .paramHdr _ isU name _ val _ body rest => .paramHdr [] isU name [] val [] (stripV body) (stripF rest)
 def stripVs : FVals → FVals
   | .nil => .nil
   | .cons v rest => .cons (stripV v) (stripVs rest)
@@ -178,6 +185,7 @@ theorem fcnt_stripF : ∀ fs : FFields, fcntF (stripF fs) = fcntF fs
   | .paramVal _ _ _ _ _ _ rest => by simp only [stripF, fcntF, fcnt_stripF rest]
   | .paramObj _ _ _ _ _ _ _ v inner _ rest => by
     simp only [stripF, fcntF, fcnt_stripV v, fcnt_stripF inner, fcnt_stripF rest]
+  | .paramHdr _ _ _ _ _ _ body rest => by simp only [stripF, fcntF, fcnt_stripV body, fcnt_stripF rest]
 theorem fcnt_stripVs : ∀ vs : FVals, fcntVs (stripVs vs) = fcntVs vs
   | .nil => rfl
   | .cons v rest => by simp only [stripVs, fcntVs, fcnt_stripV v, fcnt_stripVs rest]
@@ -216,6 +224,8 @@ theorem dtape_stripF : ∀ (fs : FFields) (b : Nat), dtapeF (stripF fs) b = dtap
   | .paramVal _ _ _ _ _ _ rest, b => by simp only [stripF, dtapeF, dtape_stripF rest]
   | .paramObj _ _ _ _ _ _ _ v inner _ rest, b => by
     simp only [stripF, dtapeF, fcnt_stripV, fcnt_stripF, dtape_stripV v, dtape_stripF inner, dtape_stripF rest]
+  | .paramHdr _ _ _ _ _ _ body rest, b => by
+    simp only [stripF, dtapeF, fcnt_stripV, dtape_stripV body, dtape_stripF rest]
 theorem dtape_stripVs : ∀ (vs : FVals) (b : Nat), dtapeVs (stripVs vs) b = dtapeVs vs b
   | .nil, _ => rfl
   | .cons v rest, b => by simp only [stripVs, dtapeVs, fcnt_stripV, dtape_stripV v, dtape_stripVs rest]
